@@ -72,7 +72,8 @@ def run(tier, seed):
     for i, cs in enumerate(gcases):
         files = {f: open(os.path.join(cs["in"], f)).read() for f in os.listdir(cs["in"])}
         inputs[f"generated-{i}"] = (files, cs["start"], True)
-    OLD = {"absent": None, "shorter": "// old\n", "longer": "// old output that is longer than anything\n" * 4000}
+    # "same-size": stale bytes of exactly the length the new output will have (a size comparison cannot tell them apart)
+    OLD = {"absent": None, "shorter": "// old\n", "longer": "// old output that is longer than anything\n" * 4000, "same-size": "same-size"}
     fails = []
     n = 0
     kinds = {}
@@ -119,6 +120,8 @@ def run(tier, seed):
                     else:
                         opath_abs = os.path.join(proj, os.path.splitext(start)[0] + ".rs")
                         args = ["--input", ipath]
+                    if oldname == "same-size":
+                        oldtext = ("/" * len(lib_bytes)) if lib_bytes else "// stale\n"
                     if oldtext is not None:
                         open(opath_abs, "w").write(oldtext)
                     before_listing = sorted(os.listdir(proj))
@@ -151,7 +154,7 @@ def run(tier, seed):
         "distinct_nontrivial": n,
         "rule": "the built zeep binary in scratch directories: inputs {valid schema set with import, with unrelated/malformed/non-schema siblings, missing file, malformed XML, malformed imported file, unresolved import, "
                 "import without namespace, encoded binding, non-UTF-8 sibling, generated schema sets and WSDLs} x path spelling {absolute, dir/relative, ./file, bare file, ../dir/file} x output {default, --output} x "
-                "pre-existing output {absent, shorter, longer}; compared with the library's bytes for the same file contents; every combination is a distinct run",
+                "pre-existing output {absent, shorter, longer, same size as the new output}; compared with the library's bytes for the same file contents; every combination is a distinct run",
         "samples": samples,
         "outcomes_lib_ok_x_exit0": {f"{k[0]}/{k[1]}": v for k, v in kinds.items()},
         "failures": len(fails),
